@@ -182,5 +182,18 @@ func probes() []probe {
 	ps = append(ps, probe{name: "typedef_set_var", prog: one("a.thrift", "c10.p6",
 		[]*idlgen.Typedef{{Name: "T", Type: tSet(str)}},
 		&idlgen.Struct{Kind: 's', Name: "S", Fields: []*idlgen.Field{fld(1, "l", rO, tName(0, "T"), nil)}})})
+	// map<binary, …>: the key variable is declared `string`, ReadBinary answers []byte
+	ps = append(ps, probe{name: "binary_map_key", prog: one("a.thrift", "c10.p7", nil,
+		&idlgen.Struct{Kind: 's', Name: "S", Fields: []*idlgen.Field{fld(1, "m", rD, tMap(tBase(idlgen.Binary), i32), nil)}})})
+	// two files in one Go package
+	ps = append(ps, probe{name: "shared_go_namespace", prog: &idlgen.Program{Files: []*idlgen.File{
+		{Path: "a.thrift", GoNS: "c10.p8", Includes: []int{1}, Structs: []*idlgen.Struct{{Kind: 's', Name: "S", Fields: []*idlgen.Field{fld(1, "t", rD, tName(1, "T1"), nil)}}}},
+		{Path: "b.thrift", GoNS: "c10.p8", Structs: []*idlgen.Struct{{Kind: 's', Name: "T1", Fields: []*idlgen.Field{fld(1, "x", rD, i32, nil)}}}},
+	}}})
+	// use_type_alias=false with a typedef'd struct
+	ps = append(ps, probe{name: "use_type_alias_false", opts: []string{"use_type_alias=false"}, prog: one("a.thrift", "c10.p9",
+		[]*idlgen.Typedef{{Name: "BB", Type: tName(0, "B")}},
+		&idlgen.Struct{Kind: 's', Name: "B", Fields: []*idlgen.Field{fld(1, "x", rD, i32, nil)}},
+		&idlgen.Struct{Kind: 's', Name: "S", Fields: []*idlgen.Field{fld(1, "b", rD, tName(0, "BB"), nil)}})})
 	return ps
 }
